@@ -43,7 +43,9 @@ package basic
 //@   tags C01 C02 C03 C10
 //@   requires w != nil
 //@   requires 0 <= length && length == len(buf)
-//@   modifies w.len, w.writes, w.data
+//@   modifies w.len, w.writes, w.data, w.wfailed
+//@   ensures[C03] w.wfailed == (old(w.wfailed) || err != nil)
+//@   ghost_at_return w.wfailed := old(w.wfailed) || err != nil
 //@   ensures w.len >= old(w.len) && w.len <= old(w.len) + length
 //@   ensures forall j int {w.data[j]} :: j < old(w.len) ==> w.data[j] == old(w.data[j])
 //@   ensures forall j int {w.data[j]} :: old(w.len) <= j && j < w.len ==> w.data[j] == buf[j - old(w.len)]
